@@ -118,12 +118,16 @@ func (r *scopeRegistry) Report(reporter StatsReporter) {
 		subscopeBucket.mu.RLock()
 
 		for name, s := range subscopeBucket.s {
+			verifYieldKey(31, name)
 			s.report(reporter)
+			verifYield(32)
 
 			if s.closed.Load() {
 				r.removeWithRLock(subscopeBucket, name)
+				verifYield(34)
 				s.clearMetrics()
 			}
+			verifYield(35)
 		}
 
 		subscopeBucket.mu.RUnlock()
@@ -138,12 +142,16 @@ func (r *scopeRegistry) CachedReport() {
 		subscopeBucket.mu.RLock()
 
 		for name, s := range subscopeBucket.s {
+			verifYieldKey(31, name)
 			s.cachedReport()
+			verifYield(32)
 
 			if s.closed.Load() {
 				r.removeWithRLock(subscopeBucket, name)
+				verifYield(34)
 				s.clearMetrics()
 			}
+			verifYield(35)
 		}
 
 		subscopeBucket.mu.RUnlock()
@@ -193,6 +201,7 @@ func (r *scopeRegistry) Subscope(parent *scope, prefix string, tags map[string]s
 			subscopeBucket.mu.RUnlock()
 			return s
 		}
+		verifYield(41)
 
 		switch {
 		case parent.reporter != nil:
@@ -210,10 +219,12 @@ func (r *scopeRegistry) Subscope(parent *scope, prefix string, tags map[string]s
 	if ok {
 		r.removeWithRLock(subscopeBucket, unsanitizedKey)
 		r.removeWithRLock(subscopeBucket, sanitizedKey)
+		verifYield(44)
 		s.clearMetrics()
 	}
 
 	subscopeBucket.mu.RUnlock()
+	verifYield(45)
 
 	// Force-allocate the unsafe string as a safe string. Note that neither
 	// string(x) nor x+"" will have the desired effect (the former is a nop,
@@ -291,6 +302,7 @@ func (r *scopeRegistry) removeWithRLock(subscopeBucket *scopeBucket, key string)
 	//      RLocked state prior to exiting. Defer order is important (LIFO).
 	subscopeBucket.mu.RUnlock()
 	defer subscopeBucket.mu.RLock()
+	verifYield(33)
 	subscopeBucket.mu.Lock()
 	defer subscopeBucket.mu.Unlock()
 	delete(subscopeBucket.s, key)
